@@ -6,6 +6,11 @@
 #include <sc_keyvalue.h>
 #include <sc_avl.h>
 #include <sc_unique_counter.h>
+#include <signal.h>
+#include <unistd.h>
+
+/* every case runs under a wall-clock limit: a history that sends libsc into an endless loop must not hang the check */
+static void on_alarm (int sig) { static const char m[] = "CASE_TIMEOUT\n"; (void) sig; if (write (2, m, sizeof m - 1) < 0) {} _exit (4); }
 
 /* ---------- output buffer ---------- */
 static char *ob; static size_t on, oc;
@@ -85,7 +90,8 @@ static void run_hash (unsigned long *par, int npar, char **ops, int nops)
     case 'r':
       r = sc_hash_remove (hash, k, &rfound);
       if (r) oput ("r 1 %x %x %zx", ((hkey_t *) rfound)->id, ((hkey_t *) rfound)->tag, hash->elem_count);
-      else oput ("r 0 %zx", hash->elem_count); break;
+      else oput ("r 0 %zx", hash->elem_count);
+      break;
     case 'R':
       r = sc_hash_remove (hash, k, NULL); oput ("R %d %zx", r, hash->elem_count); break;
     case 'a':
@@ -178,7 +184,9 @@ static void run_pool (unsigned long *par, int npar, char **ops, int nops)
       int ok = 1, val;
       for (j = 0; j < nlive; ++j)
         if (live[j].written && (!check_fill (live[j].p, esz, &val) || val != live[j].val)) ok = 0;
-      oput ("c %zx %d", kind == 0 ? count : mp->elem_count, ok); break; }
+      oput ("c %zx %d | %zx %zx", kind == 0 ? count : mp->elem_count, ok,
+            kind == 0 ? mst.per_stamp : mp->mstamp.per_stamp, kind == 0 ? mst.remember.elem_count : mp->mstamp.remember.elem_count);
+      break; }
     default: oput ("UNKNOWN_OP");
     }
   }
@@ -269,6 +277,8 @@ static void run_list (unsigned long *par, int npar, char **ops, int nops)
 int main (void)
 {
   char *line = NULL; size_t cap = 0; ssize_t len;
+  unsigned limit = getenv ("C09_CASE_TIMEOUT") ? (unsigned) atoi (getenv ("C09_CASE_TIMEOUT")) : 30;
+  signal (SIGALRM, on_alarm);
   while ((len = getline (&line, &cap, stdin)) > 0) {
     char *bar = strchr (line, '|'), *p; char **ops; int nops = 0, npar = 0, maxops; unsigned long par[8]; char *cname;
     int before;
@@ -282,6 +292,7 @@ int main (void)
     ops = (char **) malloc (sizeof (char *) * (size_t) maxops);
     for (p = strtok (bar + 1, " \n"); p != NULL; p = strtok (NULL, " \n")) ops[nops++] = p;
     on = 0; oput ("%s", "");
+    alarm (limit);
     before = sc_memory_status (-1);
     if (cname == NULL) oput ("BAD_CASE");
     else if (!strcmp (cname, "hash")) run_hash (par, npar, ops, nops);
@@ -291,7 +302,8 @@ int main (void)
     else oput ("UNKNOWN_CONTAINER");
     if (nops) osep ();
     oput ("E %x", (unsigned) (sc_memory_status (-1) - before));
-    fwrite (ob, 1, on, stdout); fputc ('\n', stdout);
+    alarm (0);
+    fwrite (ob, 1, on, stdout); fputc ('\n', stdout); fflush (stdout);
     free (ops);
   }
   free (line); free (ob);
